@@ -215,10 +215,14 @@ def parseBytes (d : Bytes) : Res := parseFrame (maxNesting + 1) d
 
 `reserveMode` selects the code's sizing rule: `false` = the pinned tree
 (`with_capacity(len)` straight from the header), `true` = capped by the bytes
-actually buffered (`len.min(data.len())`). The translator sets it from the source. -/
+actually buffered and by a constant (`len.min(data.len()).min(MAX_RESERVE)`). The translator sets it from the source. -/
+
+/-- no container is pre-sized beyond this many elements, whatever it declares and however much is buffered
+    (`MAX_RESERVE` in parser.rs; the vector grows as elements really arrive) -/
+def reserveMax : Nat := 1024
 
 def capReq (capped : Bool) (declared avail : Nat) : Nat :=
-  if capped then min declared avail else declared
+  if capped then min (min declared avail) reserveMax else declared
 
 def reserveElemsWith (p : Bytes → Res) (rv : Bytes → Nat) : Nat → Bytes → Nat
   | 0, _ => 0
